@@ -95,6 +95,9 @@ def run(prop, tier, seed, profile, spec, interest, proof_files, n_quick=2200, n_
         m = masks.get(idx, 0)
         mask, fdk, mcode = ifam.decode(m) if m else (0, None, ifam.impl_outcome(case))
         clause = interest(mask, fdk, mcode, case)
+        if clause is None and case.get('leaks'):
+            clause = ('a code block that sends nothing returned the events %r: events sent by another block (one that raised after '
+                      'sending, or one of another step) surface in a block that did not send them' % (case['leaks'][0],))
         if clause is None and (mask & B.OUTCOME) and ifam.impl_outcome(case) in UNDOCUMENTED and mcode not in UNDOCUMENTED:
             # whatever the property says about this step, the step did not take place: the call ended with an exception that is
             # none of the documented ones (NonDeterminismError, ConflictingTransitionsError, ContractError,
@@ -244,6 +247,11 @@ def interest_c03(mask, fdk, mcode, case):
 
 def interest_c04(mask, fdk, mcode, case):
     impl = ifam.impl_outcome(case)
+    bad = eval_results_ok(case, ('guard',))
+    if bad and impl not in ('ENonDeterminism', 'EConflict'):
+        # (the model only sees the evaluator's answers: a guard answered wrongly changes which transitions are "selected",
+        # so that a choice or a conflict the documented semantics would report is resolved without a word)
+        return bad + ' (C04: the transitions selected are those whose guards hold; none is dropped silently)'
     if not premise_ok(case) or fd_any(fdk, ('guard',)) or (mask & B.SELECTED):
         return None
     fam = ('ENonDeterminism', 'EConflict')
